@@ -1018,7 +1018,7 @@ impl Prop for C07 {
         // 1..=500 items (250 on average): a failing batch shrinks by losing its irrelevant items
         let items = proptest::collection::vec(item(), 1..=BATCH);
         let s = (items, proptest::collection::vec(int_err_item(), 0..3)).prop_map(|(items, errs)| Case { items, errs }).boxed();
-        Some((s, tier.pick(480, 16_000)))
+        Some((s, tier.pick(2_400, 32_000)))
     }
     fn check(&self, case: &Case, cx: &mut Ctx) -> Verdict {
         let n = case.items.len();
